@@ -379,6 +379,8 @@ func (s *MemoryAllocationStore) UnmarshalJSON(data []byte) error {
 // PoolAllocator combines an IPAllocator with an AllocationStore
 // for integrated allocation and persistence.
 type PoolAllocator struct {
+	// mu makes the allocate/release + persist pairs atomic with respect to each other
+	mu        sync.Mutex
 	allocator *IPAllocator
 	store     AllocationStore
 	poolID    string
@@ -461,6 +463,9 @@ type AllocateOptions struct {
 
 // AllocateWithOptions allocates a prefix with additional options for DHCPv6.
 func (p *PoolAllocator) AllocateWithOptions(ctx context.Context, opts AllocateOptions) (*net.IPNet, error) {
+	p.mu.Lock()
+	defer p.mu.Unlock()
+
 	prefix, err := p.allocator.Allocate(opts.SubscriberID)
 	if err != nil {
 		return nil, err
@@ -489,6 +494,9 @@ func (p *PoolAllocator) AllocateWithOptions(ctx context.Context, opts AllocateOp
 
 // Release releases a subscriber's allocation and removes from store.
 func (p *PoolAllocator) Release(ctx context.Context, subscriberID string) error {
+	p.mu.Lock()
+	defer p.mu.Unlock()
+
 	if err := p.allocator.Release(subscriberID); err != nil {
 		return err
 	}
@@ -498,6 +506,9 @@ func (p *PoolAllocator) Release(ctx context.Context, subscriberID string) error 
 
 // Lookup returns the allocation for a subscriber.
 func (p *PoolAllocator) Lookup(subscriberID string) *net.IPNet {
+	p.mu.Lock()
+	defer p.mu.Unlock()
+
 	return p.allocator.Lookup(subscriberID)
 }
 
